@@ -223,7 +223,7 @@ pub fn c17(ctx: &mut Ctx) {
         let mut l = random_logical(&mut rng);
         l.secret = secrets[0].to_string();
         // spread refusals over the rules: time skew, scope, provider errors, signature, structural
-        let kind = i % 8;
+        let kind = i % 11;
         let now = now_for(&l, if kind == 1 { 3_000_000_000_000 } else { 0 });
         let s = sign_and_spell(&l, &mut rng, &Spelling::plain(), now);
         let mut c = s.case.clone();
@@ -233,6 +233,10 @@ pub fn c17(ctx: &mut Ctx) {
             4 => c.uri = format!("{}{}x=%zz", c.uri, if c.uri.contains('?') { "&" } else { "?" }),
             5 => c.headers.retain(|(n, _)| !n.eq_ignore_ascii_case("x-amz-date") && !n.eq_ignore_ascii_case("date")),
             6 => { let mut sig = s.signature.clone().into_bytes(); sig[63] = if sig[63] == b'0' { b'1' } else { b'0' }; set_signature(&mut c, &s.signature, std::str::from_utf8(&sig).unwrap()); }
+            // the right digits in a rendering the comparison does not accept: upper case, mixed case, quoted
+            8 => set_signature(&mut c, &s.signature, &s.signature.to_uppercase()),
+            9 => { let m: String = s.signature.chars().enumerate().map(|(k, ch)| if k % 3 == 0 { ch.to_ascii_uppercase() } else { ch }).collect(); set_signature(&mut c, &s.signature, &m); }
+            10 => set_signature(&mut c, &s.signature, &format!("{}{}{}", ["\"", "'", " "][i % 3], s.signature, ["\"", "'", "\t"][i % 3])),
             _ => {}
         }
         // key A: the right key (kind 0: accepted); key B: the other secret's key. Same identity.
@@ -315,6 +319,16 @@ pub fn c17(ctx: &mut Ctx) {
                     needles.push(("valid signature of the base request".into(), good_sig.clone().into_bytes()));
                 }
             }
+            // what the client itself sent is not a disclosure when it is echoed back (a request carrying the
+            // right digits in upper case is refused, and a Debug rendering of that request shows them)
+            let mut own: Vec<u8> = c.uri.clone().into_bytes();
+            for (_, v) in &c.headers {
+                own.push(b'\n');
+                own.extend_from_slice(v);
+            }
+            own.push(b'\n');
+            own.extend_from_slice(&c.body);
+            needles.retain(|(_, n)| !contains(&own, n));
             for (what, text) in &texts {
                 for (nm, needle) in &needles {
                     if contains(text.as_bytes(), needle) {
@@ -494,6 +508,47 @@ pub fn c18(ctx: &mut Ctx) {
             let again = outcome_line(c);
             if &again != r {
                 ctx.rep.fail(Failure { kind: "ORACLE", op: "REPEAT".into(), class: "c18-repeat".into(), input: c.describe(), imp: again, model: String::new(), spec: r.clone(), clause: "C18: repeating a validation in the same process changed its outcome".into() });
+            }
+        }
+    }
+    // (a') several validations in flight on ONE thread, each suspended at its (slow) key provider while the
+    // others run: every outcome must be what the same validation gives on its own
+    {
+        let mut grng = ctx.rng.fork();
+        let usable: Vec<usize> = (0..cases.len()).filter(|i| cases[*i].ready_err.is_none()).collect();
+        for g in 0..ctx.n(60, 600) {
+            let size = 2 + g % 3;
+            let mut group: Vec<Case> = (0..size).map(|_| cases[*grng.pick(&usable)].clone()).collect();
+            if g % 4 == 0 {
+                // a request beside a tampered copy of itself (same Authorization, another path)
+                let mut t = group[0].clone();
+                t.uri = if let Some(q) = t.uri.find('?') { format!("{}/tampered{}", &t.uri[..q].trim_end_matches('/'), &t.uri[q..]) } else { format!("{}/tampered", t.uri.trim_end_matches('/')) };
+                group.push(t);
+            }
+            for (k, c) in group.iter_mut().enumerate() {
+                c.pending_answer = 1 + ((g + k) % 3) as u32;
+                c.pending_ready = ((g + 2 * k) % 2) as u32;
+                c.req_ops.clear();
+            }
+            let solo: Vec<String> = group.iter().map(|c| imp::validate_interleaved(std::slice::from_ref(c)).map(|v| v[0].clone()).unwrap_or_else(|| "NOT-ADMITTED".into())).collect();
+            if solo.iter().any(|s| s == "NOT-ADMITTED") {
+                continue;
+            }
+            for order in 0..2 {
+                let mut g2 = group.clone();
+                let mut s2 = solo.clone();
+                if order == 1 {
+                    g2.reverse();
+                    s2.reverse();
+                }
+                let together = imp::validate_interleaved(&g2).unwrap();
+                ctx.rep.count("evaluations");
+                ctx.rep.count("evaluations.interleaved");
+                for ((c, alone), tog) in g2.iter().zip(s2.iter()).zip(together.iter()) {
+                    if alone != tog {
+                        ctx.rep.fail(Failure { kind: "ORACLE", op: "INTERLEAVE".into(), class: "c18-interleaved".into(), input: format!("{} validations in flight on one thread; this one: {}", g2.len(), c.describe()), imp: tog.clone(), model: String::new(), spec: alone.clone(), clause: "C18: a validation suspended at its key provider while others run on the same thread ends differently than on its own".into() });
+                    }
+                }
             }
         }
     }
